@@ -50,6 +50,8 @@ def gen_cases(rng, tier):
     nup = 12 if tier == "quick" else 300
     for _ in range(nup):
         cases.append({"kind": "userpred", "seed": rng.randrange(2**32), "n": 10})
+    for _ in range(4 if tier == "quick" else 60):
+        cases.append({"kind": "special", "seed": rng.randrange(2**32), "n": 25})
     nadv = 16 if tier == "quick" else 800
     for _ in range(nadv):
         cases.append({"kind": "adversarial", "seed": rng.randrange(2**32), "n": 12})
@@ -420,6 +422,12 @@ def run_case(case):
         Q = np.array(case["Q"])
         check_backends(res, Q, None, case["label"], {"kind": "one-adv", "Q": case["Q"], "label": case["label"]}, random.Random(0), adversarial=True)
         return res
+    if kind == "special":
+        rng = random.Random(case["seed"])
+        for _ in range(case["n"]):
+            check_general_stationary(res, rng)
+            check_partitioned_rate(res, rng)
+        return res
     if kind == "one-unaligned":
         check_unaligned_route(res, case["prob"], random.Random(0))
         return res
@@ -459,6 +467,76 @@ def run_case(case):
             if i == 0:
                 res.sample({"adversarial": label, "params": params, "pi": pi.tolist()})
     return res
+
+
+# ---------------------------------------------------------------------------
+# two members of the family the catalogue above does not reach
+
+
+_GS = {}
+
+
+def check_general_stationary(res, rng):
+    """GS (non-reversible but stationary): a parameter vector is either refused (the stationarity constraint cannot be
+    met with non-negative rates) or gives a valid, calibrated generator with the motif probabilities stationary"""
+    from cogent3 import DNA
+    from cogent3.evolve.ns_substitution_model import GeneralStationary
+    from cogent3.maths.optimisers import ParameterOutOfBoundsError
+
+    sm = _GS.get("sm") or _GS.setdefault("sm", GeneralStationary(DNA.alphabet))
+    states = [str(x) for x in sm.get_alphabet()]
+    pi = np.array(M.dirichlet(rng, 4), dtype=float)
+    names = list(sm.parameter_order)
+    vals = [round(math.exp(rng.uniform(math.log(0.05), math.log(8.0))), 4) for _ in names]
+    rc = {"kind": "one-gs", "pi": pi.tolist(), "params": dict(zip(names, vals))}
+    try:
+        Q = np.array(sm.calcQ(pi, pi, *vals), dtype=float)
+    except ParameterOutOfBoundsError:
+        res.refused += 1
+        res.count("GS:refused")
+        return
+    except Exception as ex:  # noqa: BLE001
+        res.evals += 1
+        res.witness(exc_mechanism("C05/GS/calcQ", ex), replay_case=rc)
+        return
+    res.count("GS:accepted")
+    check_Q(res, "GS", Q, pi, "GS", {"replay_case": rc})
+    res.evals += 1
+    if np.abs(pi @ Q).max() > 1e-9:
+        res.witness("C05/motif-probs-not-stationary/GS", maxdev=float(np.abs(pi @ Q).max()), replay_case=rc)
+    check_P(res, "GS", M.expm(Q, 0.3), "GS", {"replay_case": rc})
+    res.sig("GS", "accepted", cond_bucket(Q))
+
+
+def check_partitioned_rate(res, rng):
+    """'rate' partitioned across bins without being the ordered parameter (no distribution): whatever partition and bin
+    probabilities are set, the multipliers must have bprobs-weighted mean one"""
+    from cogent3 import make_aligned_seqs, make_tree
+    from cogent3.evolve.substitution_model import TimeReversibleNucleotide
+
+    nb = rng.choice([2, 3, 4])
+    bins = [f"b{i}" for i in range(nb)]
+    bp = np.array(M.dirichlet(rng, nb, 0.1), dtype=float)
+    part = np.array(M.dirichlet(rng, nb, 0.05), dtype=float)
+    rc = {"kind": "one-partrate", "bins": bins, "bprobs": bp.tolist(), "partition": part.tolist()}
+    try:
+        sm = TimeReversibleNucleotide(predicates=["kappa"], partitioned_params="rate")
+        lf = sm.make_likelihood_function(make_tree("(a:0.2,b:0.2,c:0.2)"), bins=bins)
+        lf.set_alignment(make_aligned_seqs({"a": "ACGTACGTTAGGCC", "b": "ACGTACGCTAGGCT", "c": "ACATACGCTAGACT"}, moltype="dna"))
+        lf.set_param_rule("bprobs", init=bp)
+        lf.set_param_rule("rate_partn_partition", init=part)
+        float(lf.lnL)
+        got_bp = np.array(lf.get_param_value("bprobs"), dtype=float)
+        rates = np.array([lf.get_param_value("rate", bin=b) for b in bins], dtype=float)
+    except Exception as ex:  # noqa: BLE001
+        res.evals += 1
+        res.witness(exc_mechanism("C05/partitioned-rate/build-or-read", ex), replay_case=rc)
+        return
+    res.evals += 1
+    res.count("partitioned-rate-checked")
+    if abs((got_bp * rates).sum() - 1) > 1e-9 or rates.min() < 0:
+        res.witness("C05/bin-rates-do-not-average-to-one/partitioned-rate-without-distribution", bprobs=got_bp, rates=rates, replay_case=rc)
+    res.sig("partitioned-rate", nb)
 
 
 # ---------------------------------------------------------------------------
@@ -643,5 +721,5 @@ def gen_userpred(rng):
 
 
 def required(counters, tier):
-    need = ["unaligned-route-checked", "uncalibrated-table:user-names", "uncalibrated-table:default-names:11+bins", "user-predicate-models-checked", "user-predicate-orderings-compared", "user-predicate-reversible-accepted", "user-predicate-reversible-with-directed-term:refused", "solved-model-edges", "other-edges-unchanged-checked", "checked-exponentiator-raised", "Q-checked", "P-checked", "P(0)=I-checked", "semigroup-checked", "stationarity-checked", "bin-rates-checked", "adversarial-Q", "backend:Fast", "backend:Checked", "backend:Pade", "backend:Taylor", "backend:SemiSymmetric", "setting:either", "setting:pade"]
+    need = ["GS:accepted", "GS:refused", "partitioned-rate-checked", "unaligned-route-checked", "uncalibrated-table:user-names", "uncalibrated-table:default-names:11+bins", "user-predicate-models-checked", "user-predicate-orderings-compared", "user-predicate-reversible-accepted", "user-predicate-reversible-with-directed-term:refused", "solved-model-edges", "other-edges-unchanged-checked", "checked-exponentiator-raised", "Q-checked", "P-checked", "P(0)=I-checked", "semigroup-checked", "stationarity-checked", "bin-rates-checked", "adversarial-Q", "backend:Fast", "backend:Checked", "backend:Pade", "backend:Taylor", "backend:SemiSymmetric", "setting:either", "setting:pade"]
     return [n for n in need if not counters.get(n)]
